@@ -222,6 +222,13 @@ func c08Run(c *mc.Ctx) {
 		note(fmt.Sprintf("window=%d", window))
 	}
 	expires := date + window
+	// sub-second parts of the Signer's Date / Expires: the format carries whole seconds (the floor, time.Unix()),
+	// each timestamp on its own - in the signed message and in the Signature header alike
+	var dateNs, expNs int64
+	if k := dev(4, "sub-second parts"); k > 0 {
+		dateNs, expNs = []int64{700000000, 200000000, 999999999}[k-1], []int64{200000000, 700000000, 1}[k-1]
+		note(fmt.Sprintf("subsec=%d/%d", dateNs, expNs))
+	}
 	// --- status, method
 	status := 200
 	if k := dev(4, "status"); k > 0 {
@@ -364,8 +371,8 @@ func c08Run(c *mc.Ctx) {
 	refIntegrity, _ := refsxg.HeaderIntegrity(x)
 
 	s := &signedexchange.Signer{
-		Date:        time.Unix(date, 0),
-		Expires:     time.Unix(expires, 0),
+		Date:        time.Unix(date, dateNs),
+		Expires:     time.Unix(expires, expNs),
 		Certs:       chain.certs,
 		CertUrl:     c08MustURL(certURL),
 		ValidityUrl: c08MustURL(vURL),
